@@ -645,6 +645,29 @@ class NPProxy:
             return _map(f, a)
         return np.clip(a, lo, hi, **kw)
 
+    def interp(self, x, xp, fp, left=None, right=None, period=None):
+        """piecewise-linear interpolation, clamped outside [xp[0], xp[-1]] (NumPy's rule); xp concrete and increasing"""
+        if not (has_sym(x) or has_sym(xp) or has_sym(fp)):
+            return np.interp(x, xp, fp, left=left, right=right, period=period)
+        if has_sym(xp) or period is not None:
+            raise HarnessError("interp with symbolic abscissae / period")
+        xs = [float(v) for v in np.asarray(xp, dtype=float).ravel()]
+        fs_ = list(oarr(fp).ravel())
+        lo = fs_[0] if left is None else left
+        hi = fs_[-1] if right is None else right
+
+        def one(e):
+            if not _is_sym(e):
+                e = core.Sym(core.RV(e))
+            acc = hi
+            for k in range(len(xs) - 2, -1, -1):
+                seg = fs_[k] + (e - xs[k]) * ((fs_[k + 1] - fs_[k]) / (xs[k + 1] - xs[k]))
+                acc = core.ite(e < xs[k + 1], seg, acc)
+            return core.ite(e < xs[0], lo, acc)
+        if isinstance(x, np.ndarray) or isinstance(x, (list, tuple)):
+            return _map(one, oarr(x))
+        return one(x)
+
     def maximum(self, a, b, **kw):
         if has_sym(a) or has_sym(b):
             return _scalar_or_arr(_map2(lambda x, y: core.smax(x, y), a, b), a, b)
